@@ -947,7 +947,10 @@ __asan_default_options(void)
 {
 	return "detect_leaks=0:exitcode=77:abort_on_error=0:"
 	       "allocator_may_return_null=1:detect_stack_use_after_return=0:"
-	       "handle_abort=0:fast_unwind_on_malloc=1:malloc_context_size=12";
+	       "handle_abort=0:fast_unwind_on_malloc=1:malloc_context_size=12:"
+	       // a single allocation above 256 MB fails (hostile length fields with RECVMAXSZ 0 ask
+	       // for gigabytes; mapping and poisoning them costs seconds per case and says nothing new)
+	       "max_allocation_size_mb=256";
 }
 const char *
 __ubsan_default_options(void)
